@@ -1,5 +1,8 @@
+import HqModel.Props.C07Restart
 import HqModel.Lemmas.JobSteps
 import HqModel.Lemmas.CoreSteps
+import HqModel.Lemmas.CoreMsgCrash
+import HqModel.Lemmas.CoreMsgWitness
 /-!
 # C07 — worker loss: running tasks are restarted or failed per crash limit, nothing else
 
@@ -38,5 +41,58 @@ theorem c07_job_layer (job job' : Job.Job) (t : Nat) (e : job.setWaiting t = .ok
 /-- non-vacuity: MaxCrashes 2, second failure loss fails the task; a stop does not -/
 example : Core.crashOutcome (.max 2) true 1 = (2, true) ∧ Core.crashOutcome (.max 2) false 1 = (1, false) ∧
     Core.crashOutcome (.max 2) true 0 = (1, false) := by decide
+
+/-! ## The crash counter over all runs (M1)
+
+`Lemmas/CoreMsg*.lean` follow every task record through every function of the reactor and the scheduler: the crash
+counter is written by `crashLoop` only. -/
+
+/-- **The crash counter of a task in the map never decreases, and only the loss of a worker BY FAILURE changes it**:
+for every reachable state `s`, every operation `op` (any of the eight, any input) and every task that is in the map
+before and after (`id ∉ op.newIds`: the operation does not submit that id). -/
+theorem c07_crash_counter_step (pre : List Core.Op) (op : Core.Op) (s s' : Core.State) (out out' : Core.Out)
+    (hpre : Core.run {} pre = .ok (s, out)) (hstep : Core.step s op = .ok (s', out'))
+    (id : Core.TaskId) (hid : id ∉ op.newIds) (t t' : Core.Task)
+    (ht : s.task? id = some t) (ht' : s'.task? id = some t') :
+    t.crashes ≤ t'.crashes ∧
+    ((∀ w reason order rets, op ≠ .removeWorker w reason true order rets) → t'.crashes = t.crashes) := by
+  obtain ⟨_, h2, h3⟩ := Core.step_crashes (Core.run_nodup hpre) hstep hid ht ht'
+  refine ⟨h2, fun hop => h3 ?_⟩
+  intro hf
+  cases op <;> simp only [Core.Op.isFailureLoss] at hf
+  subst hf
+  exact hop _ _ _ _ rfl
+
+/-- **… along every run** in which the id is not submitted again. -/
+theorem c07_crash_counter_mono (pre ops : List Core.Op) (s s' : Core.State) (out out' : Core.Out)
+    (hpre : Core.run {} pre = .ok (s, out)) (hrun : Core.run s ops = .ok (s', out'))
+    (id : Core.TaskId) (hid : id ∉ Core.allNewIds ops) (t t' : Core.Task)
+    (ht : s.task? id = some t) (ht' : s'.task? id = some t') : t.crashes ≤ t'.crashes :=
+  (Core.run_task_mono (Core.run_nodup hpre) hrun hid ht ht').2
+
+/-- **Only a task that was running on the lost worker is charged a crash**: in every reachable state (side
+conditions `OpOk2` on the run that reached it), when `on_remove_worker w` changes the crash counter of a task, then
+the loss is a failure, the counter grew, the task is named in the `running` list of the `workerLost` callback of
+this operation, and before the operation the task was Running on `w` (or RunningMultiNode with root `w`). Tasks
+that were merely Assigned / Prefilled / Retracting there, redirect targets, and tasks of other workers keep
+their counter. (Not proved: that the counter grows by exactly one — it does when the `running` list has no
+duplicates, which follows from `assigned_tasks` being a set.) -/
+theorem c07_crash_only_running_on_lost (pre : List Core.Op) (s s' : Core.State) (out out' : Core.Out)
+    (w : Nat) (reason : String) (f : Bool) (order : List Core.TaskId) (rets : List (List Core.TaskId))
+    (hok : Core.RunOk Core.OpOk2 {} pre) (hpre : Core.run {} pre = .ok (s, out))
+    (hstep : Core.step s (.removeWorker w reason f order rets) = .ok (s', out'))
+    (id : Core.TaskId) (t t' : Core.Task) (ht : s.task? id = some t) (ht' : s'.task? id = some t')
+    (hne : t'.crashes ≠ t.crashes) :
+    f = true ∧ t.crashes < t'.crashes ∧
+    (∃ running, Core.Cb.workerLost w running reason ∈ out'.cbs ∧ id ∈ running) ∧
+    ((∃ v, t.state = .running w v) ∨ (∃ others, t.state = .runningMN (w :: others))) :=
+  Core.removeWorker_crash (Core.run_inv hok hpre) hstep ht ht' hne
+
+/-- non-vacuity: `Core.crashOps` satisfies all side conditions; task (1,0) is Running on worker 1 with counter 0,
+the worker is lost by failure: counter 1, instance id 1, Waiting; stopping the idle worker 2 changes nothing -/
+example : Core.RunOk Core.OpOk2 {} Core.crashOps ∧
+    ((Core.run {} Core.crashOps).toOption.map fun r => r.1.tasks.map fun t => (t.id, t.state, t.inst, t.crashes)) =
+      some [((1, 0), .waiting 0, 1, 1)] :=
+  ⟨Core.RunOk.mono (fun _ _ h => h.1.ok2) _ _ Core.crashOps_ok.1, Core.crashOps_ok.2.1⟩
 
 end HqModel.C07
